@@ -298,6 +298,18 @@ func init() {
 			g.Emit("gcstress", kinds[i%len(kinds)], strconv.Itoa(g.R.Intn(1<<30)), strconv.Itoa(size))
 		}
 	})
+	// failing-input search aimed at single pointer slots (vk argument word, _Stack.ep, receivers, encoder buffer)
+	slotKinds := []string{"vk", "ep", "recv", "vkreuse", "ep", "encbuf", "vk", "enckey"}
+	registerGen("c10.gcslot", func(g *Gen) {
+		for i := 0; i < g.N; i++ {
+			k := slotKinds[i%len(slotKinds)]
+			n := 1 + g.R.Intn(4)
+			if k == "recv" {
+				n = 1 + g.R.Intn(3)
+			}
+			g.Emit("gcslot", k, strconv.Itoa(g.R.Intn(1<<30)), strconv.Itoa(n))
+		}
+	})
 	// with SONIC_SYNC_GC every opcode of a generated decoder collects twice: keep the documents small
 	registerGen("c10.gcstress.sync", func(g *Gen) {
 		for i := 0; i < g.N; i++ {
